@@ -31,6 +31,10 @@ func TestC09_LeftoversRecovered(t *testing.T) {
 		for i := 0; i < 6; i++ {
 			k := rapid.IntRange(0, n-1).Draw(t, fmt.Sprintf("k%d", i))
 			after := rapid.Bool().Draw(t, fmt.Sprintf("after%d", i))
+			if knownRoot && inNewRootWindow(dr, len(h.Stores), k, after) {
+				rec.Exclude("crash between the registration of a brand-new root and the commit point (known C08 finding)")
+				continue
+			}
 			msg, out, err := crashCase(h, k, after, offset, 5)
 			if err != nil {
 				t.Fatalf("%v", err)
@@ -88,6 +92,8 @@ func TestC09_Known_MaintenanceNeverRuns(t *testing.T) {
 // crashWindow reports whether crash point (k, after) of the victim's commit lies after call `from` returned
 // and before the first call named by prefix `to` following it starts (positions in the crash run's numbering,
 // i.e. without the pass-through PLog.Remove).
+// The priority log's Remove runs on a side goroutine in phase 2: whether it takes a call number before or after the
+// calls around it differs from run to run, so the window is looked up with and without it.
 func crashWindow(sites []string, k int, after bool, from, to string, includeStart bool) bool {
 	var cs []string
 	for _, s := range sites {
@@ -95,6 +101,10 @@ func crashWindow(sites []string, k int, after bool, from, to string, includeStar
 			cs = append(cs, s)
 		}
 	}
+	return crashWindowIn(cs, k, after, from, to, includeStart) || crashWindowIn(sites, k, after, from, to, includeStart)
+}
+
+func crashWindowIn(cs []string, k int, after bool, from, to string, includeStart bool) bool {
 	for f, s := range cs {
 		if !strings.HasPrefix(s, from) {
 			continue
@@ -128,9 +138,12 @@ func withMaintenance(t *testing.T, prop string) {
 	knownUnlogged := stats.Known("C09", "commit-step-in-progress-at-crash-is-not-rolled-back")
 	rapid.Check(t, func(t *rapid.T) {
 		var h txh.History
-		if rapid.IntRange(0, 2).Draw(t, "nodeRemovingVictim") == 0 {
+		switch rapid.IntRange(0, 3).Draw(t, "nodeRemovingVictim") {
+		case 0:
 			h = genNodeRemovingHistory(t)
-		} else {
+		case 1:
+			h = genRivalHistory(t)
+		default:
 			h = genCrashHistory(t)
 		}
 		dr, err := dryRun(h)
@@ -139,13 +152,29 @@ func withMaintenance(t *testing.T, prop string) {
 		}
 		n := dr.CommitCall
 		f := siteIndex(dr.Sites, "Registry.UpdateNoLocksFlip")
-		for i := 0; i < 6; i++ {
+		// rival histories: the victim's commit runs into the rival's changes step by step; each step starts with a log
+		// entry and (mostly) a registry read - dying right there leaves a log whose last step did nothing yet
+		var stepStarts []int
+		if h.Rival != nil {
+			for i := 1; i < n; i++ {
+				if strings.HasPrefix(dr.Sites[i-1], "TLog.Add") && !strings.HasPrefix(dr.Sites[i], "TLog.") {
+					stepStarts = append(stepStarts, i)
+				}
+			}
+		}
+		for i := 0; i < 6+len(stepStarts); i++ {
 			lo := 0
 			if i >= 3 && f >= 0 && f < n-1 {
 				lo = f // half of the crash points lie in phase 2 and the cleanup after it
 			}
-			k := rapid.IntRange(lo, n-1).Draw(t, fmt.Sprintf("k%d", i))
-			after := rapid.Bool().Draw(t, fmt.Sprintf("after%d", i))
+			var k int
+			var after bool
+			if i >= 6 {
+				k, after = stepStarts[i-6], false
+			} else {
+				k = rapid.IntRange(lo, n-1).Draw(t, fmt.Sprintf("k%d", i))
+				after = rapid.Bool().Draw(t, fmt.Sprintf("after%d", i))
+			}
 			if knownFlip && crashWindow(dr.Sites, k, after, "Registry.UpdateNoLocksFlip", "TLog.Add", false) {
 				rec.Exclude("crash between the phase-2 registry flip and the next transaction log entry, recovery through the maintenance hook (known finding)")
 				continue
@@ -160,6 +189,13 @@ func withMaintenance(t *testing.T, prop string) {
 			if out.staleRetry {
 				continue
 			}
+			// the number of cache calls differs slightly from run to run, so the call the victim actually died at is
+			// looked up by its name in the dry run's list
+			ka := actualIndex(dr.Sites, out.site, k)
+			if knownFlip && crashWindow(dr.Sites, ka, after, "Registry.UpdateNoLocksFlip", "TLog.Add", false) {
+				rec.Exclude("crash between the phase-2 registry flip and the next transaction log entry, recovery through the maintenance hook (known finding)")
+				continue
+			}
 			if out.newRootShape && knownRoot {
 				rec.Exclude("the victim's commit creates the root of an empty store, recovery through the maintenance hook (known C08 finding: new root live before the commit point)")
 				continue
@@ -168,14 +204,18 @@ func withMaintenance(t *testing.T, prop string) {
 				if msg != "" {
 					t.Fatalf("with the maintenance pass run through the hook: %s\n  victim commit calls: %v\n%s", msg, dr.Sites, h.Render())
 				}
-				rec.Case(fmt.Sprintf("maint %s k=%d after=%v", h.Render(), k, after), k > 0, "withMaintenancePass")
+				lb := []string{"withMaintenancePass"}
+				if h.Rival != nil {
+					lb = append(lb, "rivalCommittedBeforeTheVictimsCommit")
+				}
+				rec.Case(fmt.Sprintf("maint %s k=%d after=%v", h.Render(), k, after), k > 0, lb...)
 				continue
 			}
 			if msg == "" && len(out.logsLeft) > 0 {
 				msg = fmt.Sprintf("crash %s: log files of the dead transaction remain after the maintenance passes: %v", out.site, out.logsLeft)
 			}
 			if msg == "" && len(out.orphans) > 0 {
-				if knownUnlogged && (crashWindow(dr.Sites, k, after, "BlobStore.Add", "TLog.Add", true) || crashWindow(dr.Sites, k, after, "Registry.Add", "TLog.Add", true)) {
+				if knownUnlogged && (crashWindow(dr.Sites, ka, after, "BlobStore.Add", "TLog.Add", true) || crashWindow(dr.Sites, ka, after, "Registry.Add", "TLog.Add", true)) {
 					rec.Exclude("crash inside a commit step, after it wrote a blob or registry entry and before the next step was logged: the step in progress is not rolled back (known finding)")
 					continue
 				}
@@ -194,6 +234,52 @@ func withMaintenance(t *testing.T, prop string) {
 			rec.Case(fmt.Sprintf("maint %s k=%d after=%v", h.Render(), k, after), k > 0, "withMaintenancePass")
 		}
 	})
+}
+
+// actualIndex: position in the dry run's call list of the call named in a crash site ("t3:56:TLog.Add#17[/after]").
+func actualIndex(sites []string, site string, k int) int {
+	name := site
+	if i := strings.LastIndexByte(name, ':'); i >= 0 {
+		name = name[i+1:]
+	}
+	name = strings.TrimSuffix(name, "/after")
+	for i, s := range sites {
+		if s == name {
+			return i
+		}
+	}
+	return k
+}
+
+// inNewRootWindow: the victim creates the root of an empty store and dies between the registration of that root and
+// the commit point (the recorded C08 finding: the new root is live before the commit point).
+func inNewRootWindow(dr *txh.JobResult, nStores int, k int, after bool) bool {
+	emptyBefore := false
+	for i := 0; i < nStores; i++ {
+		if len(dr.Pre[i].Items) == 0 && len(dr.Post[i].Items) > 0 {
+			emptyBefore = true
+		}
+	}
+	if !emptyBefore {
+		return false
+	}
+	r0, end := -1, -1
+	for i, s := range dr.Sites {
+		if strings.HasPrefix(s, "Registry.Add#") && r0 < 0 {
+			r0 = i
+		}
+		if strings.HasPrefix(s, "Registry.UpdateNoLocksFlip") {
+			end = i
+		}
+	}
+	if end < 0 {
+		for i, s := range dr.Sites {
+			if strings.HasPrefix(s, "StoreRepository.Update") {
+				end = i + 1
+			}
+		}
+	}
+	return r0 >= 0 && ((k == r0 && after) || (k > r0 && k < end) || (k == end && !after))
 }
 
 func siteIndex(sites []string, prefix string) int {
